@@ -118,6 +118,25 @@ PROPS["C19"] = {
                   "forced schedules, not proved.",
     "technique": "Lean 4 proof (inductive invariant over all interleavings) + forced-schedule correspondence under synctest",
 }
+PROPS["C17"] = {
+    "lean": ["SioVerif.Props.C17"],
+    "components": ["eioserver"],
+    "facts": ["eioProtocolVersion", "eioServerErrors", "eioNewSocketRechecksClosed"],
+    "rule": "the full request matrix method{GET,POST,PUT,DELETE,OPTIONS} x EIO{absent,3,4,5,junk} x transport{absent,polling,websocket,junk} x sid{absent,unknown,live,"
+            "closed} x {b64,j} flags against a freshly prepared real eio.Server (open and closed), observing status, JSON error code, sessions created, packets delivered to "
+            "and liveness of a pre-existing session; Server.Close invoked from the Authenticator (between the closed check and store.set) and racing 2..15 concurrent "
+            "handshakes; 10^5 (thorough 10^6) generated session ids. Non-trivial = every matrix cell; distinct by request line + flags.",
+    "trusted_base": EXT + ["net/http/httptest recorder stands in for the network; websocket handshakes are not completed by it (cells that reach the websocket handshake are "
+                           "compared up to 'handshake attempted')"],
+    "assumptions": ["crypto/rand produces bytes; no uniqueness is assumed from it (distinctness comes from the sequence number and store.set's check)"],
+    "level_text": "Lean 4 theorems over the request-validation decision function and the admission/Close transition system of the Engine.IO server: every request in an "
+                  "invalid class gets 400 with a protocol error code (503 when closed) and has no effect; the order in which overlapping errors win; the error table equals "
+                  "the protocol's; live session ids are duplicate-free in every reachable state; ids with sequence numbers differing mod 2^24 differ for all random bytes; "
+                  "with the re-check found in the source, no session is live once Close has run and in-flight handshakes have finished, for every interleaving. "
+                  "The decision function is compared with the real ServeHTTP on the complete request matrix.",
+    "level_note": "Trusted: Lean kernel, translator (protocol version, error table, presence of the re-check), harness. The transport code behind a valid request is outside this model.",
+    "technique": "Lean 4 proof (decision table by cases + invariants over all interleavings) + exhaustive matrix correspondence",
+}
 
 NOT_APPLICABLE = [
 ]
